@@ -9,7 +9,7 @@ export CARGO_NET_OFFLINE=true
 git -C /repo worktree add --detach "$WT" HEAD >/dev/null 2>&1 || exit 2
 cd "$WT"
 hdr="$(head -1 "$D/demo.rs")"
-dest="$(echo "$hdr" | sed -E 's#^// *copy to ([^ ;]+).*#\1#')"
+dest="$(echo "$hdr" | sed -E 's#^.*copy to ([^ ;]+).*#\1#')"
 cmd="$(echo "$hdr" | sed -E 's#^[^;]*; *##')"
 crates="$(python3 -c "import json;print(' '.join('-p '+c for c in json.load(open('$D/meta.json'))['crates_tested']))")"
 mkdir -p "$(dirname "$dest")"; cp "$D/demo.rs" "$dest"
